@@ -115,10 +115,12 @@ func DumpBubble() []Goroutine {
 }
 
 var variantRe = regexp.MustCompile(`verifsim/probe/[A-Za-z0-9_]+`)
+var mangledRe = regexp.MustCompile(`((?:un)?marshal[A-Z][A-Za-z0-9_]*?)2[^.]*`)
 
 // NormSite maps a function name to a variant-independent site label.
 func NormSite(fn string) string {
 	fn = variantRe.ReplaceAllString(fn, "probe")
+	fn = mangledRe.ReplaceAllString(fn, "$1")
 	fn = strings.ReplaceAll(fn, "github.com/99designs/gqlgen/", "gqlgen/")
 	return fn
 }
@@ -174,7 +176,15 @@ func StuckSite() (site string, dump string) {
 		sb.WriteString(g.Raw)
 		sb.WriteString("\n\n")
 	}
-	sort.Strings(sites)
+	// goroutines that merely wait for others (FieldSet.Dispatch joins its children) are the
+	// least informative: sort them last
+	sort.Slice(sites, func(i, j int) bool {
+		wi, wj := strings.Contains(sites[i], "FieldSet).Dispatch"), strings.Contains(sites[j], "FieldSet).Dispatch")
+		if wi != wj {
+			return wj
+		}
+		return sites[i] < sites[j]
+	})
 	if len(sites) == 0 {
 		return "none", ""
 	}
